@@ -219,6 +219,12 @@ func printReplay(h *History, oc outcome) {
 		for _, e := range tr.Expect {
 			fmt.Println("  " + e)
 		}
+		if len(tr.Oracles) > 0 {
+			fmt.Println("=== oracles: expectation vs observation")
+			for _, o := range tr.Oracles {
+				fmt.Println("  " + o)
+			}
+		}
 		fmt.Printf("=== goroutines left after shutdown: %v\n", tr.Left)
 		for _, n := range tr.Notes {
 			fmt.Println("  note:", n)
